@@ -52,6 +52,7 @@ type thr struct {
 	t     int
 	th    *verifsched.Thread
 	entry *replication.ReplicateEntry
+	pay   []byte // the entry's payload bytes AT THE TIME of the append call (copied)
 }
 
 type session struct {
@@ -111,8 +112,9 @@ type world struct {
 	nontriv  bool
 	lockstep bool
 	lastHook *replication.ReplicateEntry
+	lastPay  []byte
 	sentinel atomic.Int64
-	frec     func(*replication.ReplicateEntry)
+	frec     func(*replication.ReplicateEntry, []byte)
 }
 
 func newWorld(c *vh.Ctx, r *vh.Rand, ww *wal.Writer, atomicF bool, cp, interval int, tol int64, caseNo int) *world {
@@ -151,12 +153,16 @@ func newWorld(c *vh.Ctx, r *vh.Rand, ww *wal.Writer, atomicF bool, cp, interval 
 	// the wiring of coordinator.StartReplication (factgen checks the shape of that closure)
 	ww.SetReplicationHook(func(e *wal.ReplicationEntry) {
 		re := &replication.ReplicateEntry{Sequence: e.Sequence, TimestampUS: e.TimestampUS, Payload: e.Payload}
+		// the bytes the writer appended, copied NOW: the entry's payload must stay what it was when
+		// it was queued (ownership: an enqueued payload is immutable)
+		cp := append([]byte(nil), e.Payload...)
 		if w.lockstep {
 			w.lastHook = re
+			w.lastPay = cp
 		}
 		w.sender.Replicate(re)
 		if !w.lockstep && w.frec != nil {
-			w.frec(re)
+			w.frec(re, cp)
 		}
 	})
 	b2i := 0
@@ -223,12 +229,14 @@ func (w *world) assign(t int, payload []byte, path int) bool {
 		w.op(fmt.Sprintf("a %d %s", t, vh.Hex(payload)), "unexpected-point:"+p)
 		return false
 	}
+	x.pay = append([]byte(nil), payload...)
 	if path != 0 {
 		x.entry = w.lastHook
+		x.pay = w.lastPay
 	}
 	w.holding[t] = x
 	w.assigned[x.entry.Sequence] = true
-	w.op(fmt.Sprintf("a %d %s", t, vh.Hex(x.entry.Payload)), fmt.Sprintf("seq=%d", x.entry.Sequence))
+	w.op(fmt.Sprintf("a %d %s", t, vh.Hex(x.pay)), fmt.Sprintf("seq=%d", x.entry.Sequence))
 	return true
 }
 
@@ -248,7 +256,36 @@ func (w *world) enqueue(t int) {
 		}
 		x.th.Release()
 	}
-	e := ent{x.entry.Sequence, x.entry.Payload}
+	e := ent{x.entry.Sequence, x.pay}
+	w.noteEnqueue(t, e, before)
+}
+
+// appendDirect runs one append on the harness goroutine itself (no schedule control: assignment and
+// enqueue back to back), through the same three paths. Used for bursts behind a stalled reader.
+func (w *world) appendDirect(t int, payload []byte, path int) {
+	before := w.sender.VerifDropped()
+	var seq uint64
+	pay := append([]byte(nil), payload...)
+	switch path {
+	case 0:
+		entry := &replication.ReplicateEntry{TimestampUS: 1, Payload: payload}
+		w.sender.Replicate(entry)
+		seq = entry.Sequence
+	case 1:
+		w.lastHook = nil
+		w.ww.AppendRaw(payload)
+		seq, pay = w.lastHook.Sequence, w.lastPay
+	default:
+		w.lastHook = nil
+		w.ww.AppendRawWithMeta("db", payload)
+		seq, pay = w.lastHook.Sequence, w.lastPay
+	}
+	w.assigned[seq] = true
+	w.op(fmt.Sprintf("a %d %s", t, vh.Hex(pay)), fmt.Sprintf("seq=%d", seq))
+	w.noteEnqueue(t, ent{seq, pay}, before)
+}
+
+func (w *world) noteEnqueue(t int, e ent, before int64) {
 	if w.sender.VerifDropped() > before {
 		w.dropOut = append(w.dropOut, e.seq)
 		w.op(fmt.Sprintf("e %d", t), "dropped")
